@@ -21,7 +21,7 @@ EDITS = {
     "tail-omitted": ("internal/dockerlog/dockerlog.go", "\t\tTail:       \"all\",\n", "", ["C02", "C04", "C14"]),
 }
 def sh(*a, **k):
-    return subprocess.run(a, capture_output=True, text=True, **k)
+    return subprocess.run(a, capture_output=True, text=True, errors="replace", **k)
 if sh("git", "-C", REPO, "status", "--porcelain").stdout.strip():
     sys.exit("/repo is not clean")
 names = sys.argv[1:] or list(EDITS)
